@@ -1088,8 +1088,8 @@ func coqTx(t *txSpec) string {
 	return "(" + hxlib.CoqList(ls) + ", " + hxlib.CoqList(is) + ")"
 }
 
-func coqCase(bc *blockCase, seq, conc observation, picks []int) string {
-	var txs, so, co, pk []string
+func coqCase(bc *blockCase, seq, conc observation, pickSeed int64) string {
+	var txs, so, co []string
 	for i := range bc.Txs {
 		txs = append(txs, coqTx(&bc.Txs[i]))
 	}
@@ -1105,10 +1105,7 @@ func coqCase(bc *blockCase, seq, conc observation, picks []int) string {
 		}
 		sched = "SSerial " + hxlib.CoqList(o)
 	} else {
-		for _, x := range picks {
-			pk = append(pk, fmt.Sprint(x))
-		}
-		sched = "SPicks " + hxlib.CoqList(pk)
+		sched = fmt.Sprintf("SPicks %d", pickSeed)
 	}
 	return fmt.Sprintf("(Case %s %s %s (%s) %s %s %s %s)", hxlib.CoqNat(bc.Level), coqBalances(bc.Init), hxlib.CoqList(txs), sched,
 		coqBalances(conc.Final), hxlib.CoqList(co), coqBalances(seq.Final), hxlib.CoqList(so))
@@ -1282,14 +1279,7 @@ func emit(c *hxlib.Ctx, kind string, bc *blockCase, r *rand.Rand, sc *seqCache) 
 	msg := oracle(bc, seq, conc)
 	cs := hxlib.Case{Kind: kind, Input: *bc, Nontrivial: nontrivial(bc), OracleErr: msg, Key: caseKey(bc)}
 	if !c.OracleOnly && conc.Deadlock == "" && conc.Panic == "" && conc.Err == "" && seq.Err == "" && seq.Panic == "" {
-		picks := make([]int, 0)
-		if bc.Sched.Kind != "serial" {
-			picks = make([]int, 40*len(bc.Txs)+16)
-			for i := range picks {
-				picks[i] = r.Intn(64)
-			}
-		}
-		cs.Coq = coqCase(bc, seq, conc, picks)
+		cs.Coq = coqCase(bc, seq, conc, r.Int63n(1<<31))
 	}
 	c.Emit(cs)
 	return msg
@@ -1315,7 +1305,17 @@ func identity(n int) []int {
 func schedules(r *rand.Rand, bc *blockCase, count int) []blockCase {
 	n := len(bc.Txs)
 	var out []blockCase
+	seen := map[string]bool{}
+	tries := 0
 	add := func(level int, s schedSpec) {
+		tries++
+		k := fmt.Sprint(s.Kind, s.Order, s.Hold)
+		if s.Kind == "serial" || s.Kind == "prio" {
+			if seen[k] {
+				return
+			}
+			seen[k] = true
+		}
 		b := *bc
 		b.Level, b.Sched = level, s
 		out = append(out, b)
@@ -1334,7 +1334,7 @@ func schedules(r *rand.Rand, bc *blockCase, count int) []blockCase {
 		// with a world read lock the outcome depends on the schedule (see notes): only the
 		// deterministic serial schedules are used
 		add(full, schedSpec{Kind: "serial", Order: linearExtension(bc, n-1, func(rd []int) int { return 0 })})
-		for len(out) < count {
+		for len(out) < count && tries < 4*count {
 			add(full, schedSpec{Kind: "serial", Order: linearExtension(bc, n-1, func(rd []int) int { return r.Intn(len(rd)) })})
 		}
 		return out
@@ -1443,8 +1443,8 @@ func gen(c *hxlib.Ctx) {
 		good := observation{Final: []int64{6, 7, 0, 0, 0, 0, 0}, Obs: [][]int64{{}, {6}}}
 		stale := observation{Final: []int64{6, 7, 0, 0, 0, 0, 0}, Obs: [][]int64{{}, {5}}} // the reader saw the value before the earlier writer
 		lost := observation{Final: []int64{5, 7, 0, 0, 0, 0, 0}, Obs: [][]int64{{}, {6}}}  // the write was lost
-		c.Emit(hxlib.Case{Kind: "canary", Canary: true, Coq: coqCase(bc, good, stale, nil)})
-		c.Emit(hxlib.Case{Kind: "canary", Canary: true, Coq: coqCase(bc, good, lost, nil)})
+		c.Emit(hxlib.Case{Kind: "canary", Canary: true, Coq: coqCase(bc, good, stale, 0)})
+		c.Emit(hxlib.Case{Kind: "canary", Canary: true, Coq: coqCase(bc, good, lost, 0)})
 	}
 }
 
